@@ -62,8 +62,10 @@ Definition upto (c : Z) (s : tser) : tser := filter (fun p => fst p <=? c) s.
    start = _shift(cutoff, by=-window_length_ + 1); self._y.loc[start:cutoff] *)
 Definition get_last_window (wl c : Z) (s : tser) : list Z := tloc s (c + lw_shift wl) c.
 
-(* y.iloc[window] for a window of positions *)
-Definition ttake (y : tser) (w : list Z) : tser := map (fun i => nth (Z.to_nat i) y (0, 0)) w.
+(* y.iloc[window] for a window of positions inside the series (the splitters yield no others) *)
+Definition ttake (y : tser) (w : list Z) : tser :=
+  flat_map (fun i => if 0 <=? i then match nth_error y (Z.to_nat i) with Some p => [p] | None => [] end
+                     else []) w.
 
 (* ---------------------------------------------------------------------------------------------- *)
 (* the strategies split into their fit part and their predict part; the predict part takes the
